@@ -29,6 +29,11 @@ VALID_PIPES = [
     (["compute_tip_position", "correct_tip_offset", "correct_force_slope"],
      {"correct_force_slope": {"region": "all", "strategy": "drift"}}),
     (["compute_tip_position", "correct_tip_offset"], {"correct_force_slope": {"region": "all"}}),
+    # steps that work through the segment views of the curve (height smoothing), after a fit they must still see
+    # the current data
+    (["compute_tip_position", "smooth_height"], {}),
+    (["compute_tip_position", "correct_tip_offset", "correct_force_slope", "smooth_height"],
+     {"correct_force_slope": {"region": "baseline", "strategy": "shift"}}),
 ]
 INVALID_PIPES = [
     (["correct_tip_offset"], {}),                                         # missing prerequisite
